@@ -303,6 +303,24 @@ impl Bridge for Point {
     }
 }
 
+/// a derived unit struct: zero-sized in memory, one byte (the version) on the wire
+#[derive(Debug, PartialEq, Eq, PartialOrd, Ord, Hash, Clone, Copy, BinaryCodec)]
+pub struct Marker;
+impl Bridge for Marker {
+    fn ty() -> Ty {
+        Ty::Adt("Marker".into())
+    }
+    fn register(reg: &mut Registry) {
+        reg.insert(AdtDef::Record(RecordDef { name: "Marker".into(), option_aware: true, steps: vec![], fields: vec![] }));
+    }
+    fn to_val(&self) -> Val {
+        Val::Record(vec![])
+    }
+    fn from_val(_: &Val) -> Self {
+        Marker
+    }
+}
+
 #[derive(Debug, PartialEq, BinaryCodec)]
 pub enum Choices {
     A,
@@ -1055,6 +1073,7 @@ pub fn builtin_catalog() -> Catalog {
         std::marker::PhantomData<u32>, (u8, std::marker::PhantomData<String>, u8), Vec<std::marker::PhantomData<u8>>,
         Result<Result<u8, ()>, Option<char>>, LinkedList<(char, Duration)>, (Uuid, BigInt, BigDecimal), Vec<Dt<FixedOffset>>, Option<Dt<Tz>>, BTreeMap<NaiveDate, NaiveTime>,
         Big200, Vec<Big200>, (Big200, u8), Zipped, (Zipped, String), Vec<Zipped>, Archive, Vec<Archive>, (Archive, u8),
+        Marker, (Marker, u8, Marker), Option<((),)>,
         Fragile, (String, Fragile), Vec<Fragile>, Brittle, Vec<Brittle>, (Brittle, Point),
     ];
     for e in entries.iter_mut() {
@@ -1086,7 +1105,8 @@ pub fn builtin_catalog() -> Catalog {
             matrix.push(g);
         })*};
     }
-    seq_group!(u16, String, i64, (u8, u16), i8, u32, bool, i16, char, u64, Option<u8>, (), i128, Uuid, (String, bool), Vec<u16>, BTreeSet<i8>);
+    seq_group!(u16, String, i64, (u8, u16), i8, u32, bool, i16, char, u64, Option<u8>, (), i128, Uuid, (String, bool), Vec<u16>, BTreeSet<i8>,
+        ((),), [u16; 0], Marker, ((), std::marker::PhantomData<u8>));
     macro_rules! pair_group {
         ($(($k:ty, $v:ty)),*) => {$({
             let en = format!("{},{}", stringify!($k), stringify!($v)).replace(' ', "");
